@@ -138,6 +138,13 @@ package drpcstream
 //@   ghost after:(*Writer).WriteFrame frames = frames + 1
 //@   site (*Writer).WriteFrame assert [C07.frame] arg1.Kind == kind && arg1.Control == control && arg1.Done && arg1.Data == data && arg1.ID.Stream == s.id.Stream && arg1.ID.Message == old(s.id.Message) + 1
 //@   check [one-frame] frames == 1
+//@   ghost entry werr = nil
+//@   ghost after:(*Writer).WriteFrame werr = ret
+//@   ghost entry ferr = nil
+//@   ghost after:(*Writer).Flush ferr = ret
+//@   check [C05.write-error-reported] werr != nil ==> err != nil && eventCount("call:(*Writer).Flush") == 0
+//@   check [C05.flush-error-reported] ferr != nil ==> err != nil
+//@   check [C01.flushed] err == nil ==> werr == nil && ferr == nil && eventCount("call:(*Writer).Flush") == 1
 //@   ensures [id] s.id.Stream == old(s.id.Stream) && s.id.Message == old(s.id.Message) + 1
 
 //@ func (*Stream).terminateIfBothClosed
